@@ -1,5 +1,6 @@
 """C06 — signed transactions are the exact typed encodings and recover to the signer."""
 from vlib.core import Case, hx
+from vlib import core
 from vlib import txgen
 
 ID = "C06"
@@ -8,7 +9,7 @@ RULE = ("op tx.sign <json> <key> -> signing digest, signed bytes, (r, s, parity)
         "(thorough 0..1100) + 255/256/65535/65536, recipients present/absent/null, access lists 0..4 entries x 0..4 slots plus shapes pushing list payloads across 55/56 and 255/256, "
         "every subset of {gasPrice, maxPriorityFeePerGas, maxFeePerGas, accessList} x chain id present/absent (kind selection and refusals), all three kinds, chain ids 0,1,2^64-1,large, both parities (counted); op tx.encode with chosen signatures whose r / s have every byte width 1..32; non-trivial = distinct document; "
         "judge = independent strict decoder (Spec.Tx.decode on Spec.Rlp.decodeAll): every decoded field equals the document, v/yParity as integers, "
-        "signature verifies and recovers to the key over keccak256 of the re-encoded unsigned payload")
+        "signature verifies and recovers to the key over keccak256 of the re-encoded unsigned payload; large transactions (calldata 1000..131077 bytes around 4/8/32/64/128 KiB; thorough up to 262151) signed through the command line via every input route: the printed text is the whole encoding and nothing else")
 EXHAUSTIVE_SWEEPS = {"quick": ["calldata lengths 0..120"], "thorough": ["calldata lengths 0..1100"]}
 N = txgen.N
 
@@ -69,6 +70,15 @@ def gen(rng, tier):
             for so in (0, 1):
                 j, _ = txgen.rand_tx(rng, kind=kind, chain=chain)
                 cases.append(Case("cli.sign_tx %s - default %s %d %d" % (mn_, hx(j), so, allow), tags=("cli", "kind:" + kind, "allow:%d" % allow), runner="cli", meta={"via": {}, "via_file": False}))
+    # LARGE transactions through the command line: the printed encoding is the whole encoding and nothing else, whatever
+    # its size relative to the sizes an output or hex buffer may have (4 KiB, 8 KiB, 32 KiB, 64 KiB, 128 KiB)
+    sizes = [1000, 4095, 4096, 8191, 8192, 8193, 16384, 32767, 32768, 32769, 33000, 40000, 65535, 65536, 70001, 131077] + ([200000, 98304, 49152, 262144 + 7] if tier == "thorough" else [])
+    for i, n in enumerate(sizes):
+        kind = ("legacy", "eip2930", "eip1559")[i % 3]
+        j, _ = txgen.rand_tx(rng, kind=kind, chain=1, data_len=n - rng.choice([0, 0, 110, 150]) if n > 1000 else n, spellings=["int", "hex-str"])
+        cases.append(Case("cli.sign_tx %s - default %s 0 0" % (mn_, hx(j)), tags=("cli", "large", "kind:" + kind), runner="cli", meta={"via": {}, "via_file": core.input_route(rng)}))
+        if i % 4 == 0:
+            cases.append(Case("tx.sign %s %s" % (hx(j), key()), tags=("large", "kind:" + kind)))
     # every numeric field of every kind with a value no unsigned field can take (negative integer / float, fraction): refused
     # whichever field and kind it is — what is signed is what the document says, or nothing
     from vlib.txgen import Raw as _Raw
